@@ -170,6 +170,7 @@ static Profile profileOf(const std::string& n) {
   } else if (n == "c06") {
     p.rsDelays = {0}; p.rsDelayPct = 100; p.ownDelayPct = 0;
     p.actStop = {10, 20}; p.actAsync = {45, 60}; p.detStop = {25, 50}; p.maxTicks = 12;
+    p.drop = true;   // drop-ins come and go while chains are suspended (a suspended chain of the base must survive)
   } else if (n == "c11" || n == "cg") {
     p.cg = true; p.rsDelays = {0, 1, 2};
   } else if (n == "c13" || n == "dropin") {
